@@ -132,7 +132,7 @@ class Scratch:
                 return lst.pop()
             self.tgt_n += 1
             t = os.path.join(self.base, "tgt_%s_%d" % (build, self.tgt_n))
-        tpl = self.template(build)
+        tpl = None if getattr(self, "no_template", False) else self.template(build)
         if tpl and not os.path.isdir(t):
             subprocess.call(["cp", "-a", "--reflink=auto", tpl, t])
         return t
@@ -454,6 +454,17 @@ def playback(scratch, h, res):
     return reproduced, rpath, detail
 
 
+TOOL_FAILURES = ("rust_dealloc must be called on an object whose allocated size matches its layout", "free argument", "dereference failure: pointer invalid",
+                 "dereference failure: pointer NULL", "dereference failure: deallocated dynamic object", "dereference failure: dead object",
+                 "dereference failure: pointer outside object bounds", "dereference failure: invalid integer address",
+                 "Kani does not support reasoning about pointer to unallocated memory", "double free", "free called for")
+
+
+def only_memory_model_failures(descs):
+    """True when every failed check is one of CBMC's memory-model checks (no assertion / panic / overflow / bounds check of Rust code)"""
+    return bool(descs) and all(any(d.strip().startswith(t) or t in d for t in TOOL_FAILURES) for d in descs)
+
+
 def module_file_of(h):
     """file name of the harness module a query lives in (the path component before the function name)"""
     parts = h.name.split("::")
@@ -635,7 +646,24 @@ def run_property(prop, harnesses, tier, meta, only=None, workers=None, mem_total
                 # anything is reported (observed once: memory-safety checks of a model-level query
                 # failing in one run and the identical query succeeding in the next)
                 scratch.tgt_free[h.build] = []
+                tool_only = only_memory_model_failures(r["failed_descriptions"])
+                if tool_only:
+                    # Only CBMC memory-model checks failed (deallocation layout, invalid / NULL pointer) and no
+                    # assertion, panic or arithmetic check: the code under test is safe Rust (no `unsafe` in
+                    # stun-rs / stun-agent), so this cannot come from it.  Seen as an artefact of a damaged build
+                    # state: re-run from a completely clean target directory (no template, full rebuild).
+                    scratch.no_template = True
                 r_again = run_kani(scratch, h, logname=h.name.replace("::", "__") + ".confirm")
+                scratch.no_template = False
+                if tool_only and r_again["status"] == "fail" and only_memory_model_failures(r_again["failed_descriptions"]):
+                    r["verdict"] = "inconclusive"
+                    r["status"] = "error"
+                    r["detail"] = "only memory-model checks of the model checker failed, twice, the second time after a clean rebuild (%s); no assertion of the harness failed; not attributable to the (safe Rust) code under test" % "; ".join(r_again["failed_descriptions"][:2])
+                    if exit_code != 1:
+                        exit_code = 2
+                    out_lines.append("INCONCLUSIVE %s: %s" % (h.name, r["detail"]))
+                    results.append(r)
+                    continue
                 if r_again["status"] == "pass":
                     r["verdict"] = "failed once, SUCCESSFUL on re-run: not reported"
                     r["flaky_first_failure"] = r["failed_descriptions"]
